@@ -66,6 +66,122 @@ def index_loop_lookup(fb, look, vec, L):
     return ok, "index loop lookup: whole range=%s, ++i=%s, returns i on match=%s, returns size() when absent=%s, predicate element-key == id=%s" % (whole, step, ret_i, ret_n, pred)
 
 
+
+def _unwrap(x):
+    """strip casts, iterator conversions, std::move/forward and copy/move constructions"""
+    for _ in range(8):
+        x = strip_all_casts(x)
+        if x.get("k") == "construct" and len(x.get("args", [])) == 1:
+            x = x["args"][0]
+            continue
+        if x.get("k") == "call" and callee_name(x) in ("std::move", "std::forward") and x.get("args"):
+            x = x["args"][0]
+            continue
+        return x
+    return strip_all_casts(x)
+
+
+class Positions:
+    """Classifies index / iterator / element expressions of one tracked vector as the position the lookup
+    found ('found') or the last position ('last'), whatever spelling is used: lookup method or inline
+    find_if with the key predicate, begin()+i / std::next, size()-1 / count-1 / std::prev(end()) / back()."""
+
+    def __init__(self, fb, f, vec, look, L):
+        self.fb, self.f, self.vec, self.look, self.L = fb, f, vec, look, L
+
+    def on_vec(self, x, names):
+        x = _unwrap(x)
+        return x.get("k") == "call" and (x.get("callee") or {}).get("nm") in names and strip_all_casts(x.get("obj", {})).get("field") == self.vec
+
+    def count_like(self, x):
+        x = _unwrap(facts.expand(self.f, x))
+        return self.on_vec(x, ("size",)) or (x.get("k") == "call" and callee_name(x) == self.L["count"])
+
+    def key_predicate(self, pred):
+        """pred (a lambda, possibly through a local) tests `element key == id` with id not derived from the element"""
+        pred = _unwrap(facts.expand(self.f, pred))
+        lam = [x for x in walk(pred) if x.get("k") == "lambda"]
+        if len(lam) != 1:
+            return None
+        lr = [n for n in walk(lam[0]["body"]) if n.get("k") == "return"]
+        if len(lr) != 1:
+            return None
+        at = facts.conjuncts(lr[0]["e"], True)
+        if len(at) != 1 or at[0][0] != "cmp" or at[0][2] != "==":
+            return None
+        sides = (at[0][4], at[0][5])
+        for i in (0, 1):
+            if set(self.L["elem_key"]) <= called_names(sides[i]) and \
+                    not any(x.get("k") == "ref" and x.get("decl") in {q["decl"] for q in lam[0].get("params", [])} for x in walk(sides[1 - i])):
+                return sides[1 - i]  # the id the elements are compared with
+        return None
+
+    def index(self, e):
+        x = _unwrap(facts.expand(self.f, e, 4))
+        if x.get("k") == "call" and self.fb.resolve_call(x) is self.look:
+            return "found"
+        if x.get("k") == "call" and callee_name(x) == "std::distance" and len(x.get("args", [])) == 2 and self.on_vec(x["args"][0], ("begin", "cbegin")) and \
+                self.iterator(x["args"][1]) == "found":
+            return "found"
+        if x.get("k") == "bin" and x.get("op") == "-" and const_value(x["r"]) == 1 and self.count_like(x["l"]):
+            return "last"
+        return None
+
+    def iterator(self, e):
+        x = _unwrap(facts.expand(self.f, e, 4))
+        if x.get("k") != "call":
+            return None
+        nm = callee_name(x) or ""
+        a = x.get("args", [])
+        if nm == "std::find_if" and len(a) == 3 and self.on_vec(a[0], ("begin", "cbegin")) and self.on_vec(a[1], ("end", "cend")) and self.key_predicate(a[2]) is not None:
+            return "found"
+        if nm == "std::next" and len(a) == 2 and self.on_vec(a[0], ("begin", "cbegin")):
+            return self.index(a[1])
+        if nm == "std::prev" and len(a) in (1, 2) and self.on_vec(a[0], ("end", "cend")) and (len(a) == 1 or const_value(a[1]) == 1):
+            return "last"
+        if x.get("op") == "+" and len(a) + (1 if "obj" in x else 0) == 2:
+            ops = ([x["obj"]] if "obj" in x else []) + a
+            if self.on_vec(ops[0], ("begin", "cbegin")):
+                return self.index(ops[1])
+        if x.get("op") == "-" and len(a) + (1 if "obj" in x else 0) == 2:
+            ops = ([x["obj"]] if "obj" in x else []) + a
+            if self.on_vec(ops[0], ("end", "cend")) and const_value(ops[1]) == 1:
+                return "last"
+        return None
+
+    def element(self, e):
+        x = _unwrap(e)
+        if x.get("k") == "ref":
+            x = _unwrap(facts.expand(self.f, x, 2))
+        if x.get("k") == "call":
+            nm = (x.get("callee") or {}).get("nm")
+            if nm == "operator[]" and strip_all_casts(x.get("obj", {})).get("field") == self.vec and x.get("args"):
+                return self.index(x["args"][0])
+            if nm == "at" and strip_all_casts(x.get("obj", {})).get("field") == self.vec and x.get("args"):
+                return self.index(x["args"][0])
+            if nm == "back" and strip_all_casts(x.get("obj", {})).get("field") == self.vec:
+                return "last"
+            if nm in ("operator*", "operator->") and "obj" in x:
+                return self.iterator(x["obj"])
+        if x.get("k") == "un" and x.get("op") == "*":
+            return self.iterator(x["e"])
+        return None
+
+    def found_guard(self, fs, present=True):
+        """a live fact says the key is present (found index != / < count, found iterator != end()) or, with present=False, absent"""
+        ops = ("!=", "<") if present else ("==", ">=")
+        for a in fs:
+            if a[0] != "cmp":
+                continue
+            for x, y, o in ((a[4], a[5], a[2]), (a[5], a[4], facts._flip_op(a[2]))):
+                if o not in ops:
+                    continue
+                if self.index(x) == "found" and self.count_like(y):
+                    return True
+                if o in ("!=", "==") and self.iterator(x) == "found" and self.on_vec(facts.expand(self.f, y), ("end", "cend")):
+                    return True
+        return False
+
 def type_guard(facts_list, kind_value, pol=True, fn=None):
     for a in facts_list:
         if a[0] == "cmp" and fn is not None:
@@ -167,9 +283,19 @@ def run(ctx):
             res.check(okc and pred_ok, "C16-R5", "%s:lookup" % short, look.loc, "distance(begin, find_if(begin, end, element key == id)) over the whole vector",
                       "%s is not `distance(begin, find_if(begin, end, element-key == id))` (whole range=%s)" % (look.name, okc))
         # ---- R1 key agreement on update
+        posu = Positions(fb, upd, vec, look, L)
         lk = [c for c in upd.calls() if fb.resolve_call(c) is look]
-        ok1 = len(lk) == 1 and L["key_call"] in depends(upd, lk[0]["args"][0])[1] and upd.params[0]["decl"] in depends(upd, lk[0]["args"][0])[0]
-        res.check(ok1, "C16-R1", "%s:update-key" % short, lk[0].get("loc") if lk else upd.loc, "update looks up %s of the packet" % L["key_call"].split("::")[-1],
+        fiu = [c for c in upd.calls("std::find_if") if posu.iterator(c) == "found"]
+        if lk:
+            keyexpr = lk[0]["args"][0]
+        elif fiu:
+            # inline search: the id the predicate compares the elements with
+            keyexpr = posu.key_predicate(fiu[0]["args"][2]) or {}
+        else:
+            keyexpr = {}
+        ok1 = (len(lk) == 1 or len(fiu) == 1) and L["key_call"] in depends(upd, keyexpr)[1] and upd.params[0]["decl"] in depends(upd, keyexpr)[0]
+        res.check(ok1, "C16-R1", "%s:update-key" % short, (lk or fiu or [upd])[0].get("loc") if (lk or fiu) else upd.loc,
+                  "update looks up %s of the packet" % L["key_call"].split("::")[-1],
                   "update does not look the element up by %s of the packet being applied" % L["key_call"])
         # ---- R2 writers
         ws = []
@@ -184,15 +310,8 @@ def run(ctx):
             key = "%s:%s:%s" % (short, f.name.split("::")[-1], kind)
             if kind == "call:push_back":
                 fs = MustFacts(f).at(n)
-                # guarded by index == count (negation of index < count / index != count)
-                g = None
-                for a in fs:
-                    if a[0] == "cmp" and a[2] in (">=", "=="):
-                        sides = (a[4], a[5])
-                        if any(fb.resolve_call(x) is look for s in sides for x in walk(s) if x.get("k") == "call") or \
-                                any(depends(f, s)[1] & {look.name} for s in sides):
-                            if any(L["count"] in called_names(s) or "size" in canon(s) for s in sides):
-                                g = a
+                # guarded by "key absent": found index == count / found iterator == end()
+                g = True if Positions(fb, f, vec, look, L).found_guard(fs, present=False) else None
                 res.check(g is not None and f is upd, "C16-R2", key, n.get("loc"), "push_back only when the lookup returned the element count (key absent)",
                           "push_back onto %s is not guarded by 'lookup == count': duplicate entries for one id become possible" % vec.split("::")[-1])
                 tg = type_guard(fs, pt[L["kind"]], fn=f) if L["kind"] == "cmStatMsg" else True
@@ -207,30 +326,45 @@ def run(ctx):
                                  cfgf.pos_of[c2["id"]] < cfgf.pos_of[n["id"]] for c2 in f.calls())
                 res.check(upd_before, "C16-R4", "%s:new-element-updated" % short, n.get("loc"),
                           "new element receives update(packet) before it is stored", "new element is stored without update(packet)")
-            elif kind == "call:pop_back":
+            elif kind in ("call:pop_back", "call:erase"):
+                pos = Positions(fb, f, vec, look, L)
                 fs = MustFacts(f).at(n)
-                g = any(a[0] == "cmp" and a[2] in ("!=", "<") and any(depends(f, s)[1] & {look.name} for s in (a[4], a[5])) for a in fs)
-                sw = [c for c in f.calls("std::swap")]
-                oksw = False
-                for c in sw:
-                    a0, a1 = canon(c["args"][0]), canon(c["args"][1])
-                    both = a0 + " " + a1
-                    oksw = vec.split("::")[-1] in a0 and vec.split("::")[-1] in a1 and "size() - 1" in both.replace("std::vector::", "").replace("this->" + vec.split("::")[-1] + ".", "") and \
-                        any(depends(f, x)[1] & {look.name} for x in walk(c) if x.get("k") == "call" and (x.get("callee") or {}).get("nm") == "operator[]" for x in x.get("args", []))
-                    cfg = f.cfg
-                    oksw = oksw and cfg.block_for(c) == cfg.block_for(n) and cfg.pos_of[c["id"]] < cfg.pos_of[n["id"]]
-                res.check(g and f is rem and oksw, "C16-R2", key, n.get("loc"), "pop_back only when found, after swapping [index] with [size-1]",
-                          "pop_back on %s without 'found' guard (%s) or without swapping exactly [index] and [size-1] first (%s)" % (vec.split("::")[-1], g, oksw))
-            elif kind == "call:erase":
-                # erase(begin() + index) of the found element keeps the remaining entries unique
-                fs = MustFacts(f).at(n)
-                g = any(a[0] == "cmp" and a[2] in ("!=", "<") and any(depends(f, s2)[1] & {look.name} for s2 in (a[4], a[5])) for a in fs)
-                arg = strip_all_casts(n["args"][0]) if n.get("args") else {}
-                ae = facts.expand(f, arg)
-                one = len(n.get("args", [])) == 1 and any((x.get("callee") or {}).get("nm") in ("begin", "cbegin") and strip_all_casts(x.get("obj", {})).get("field") == vec
-                                                          for x in walk(ae) if x.get("k") == "call") and look.name in depends(f, arg)[1]
-                res.check(g and one and f is rem, "C16-R2", key, n.get("loc"), "erase(begin() + found index) only when found",
-                          "erase on %s is not `erase(begin() + index)` of the found element under a 'found' guard" % vec.split("::")[-1])
+                g = pos.found_guard(fs, present=True)
+                cfg = f.cfg
+
+                def before(x):
+                    return (cfg.block_for(x) == cfg.block_for(n) and cfg.pos_of[x["id"]] < cfg.pos_of[n["id"]]) or \
+                        (cfg.block_for(x) != cfg.block_for(n) and cfg.dominates(cfg.block_for(x), cfg.block_for(n)))
+                # what was moved into the found slot before the last slot is dropped
+                moved = False
+                how = ""
+                for c in f.calls():
+                    nmc = callee_name(c) or ""
+                    if nmc in ("std::swap", "std::iter_swap") and len(c.get("args", [])) == 2 and before(c):
+                        kinds = {(pos.element(a) if nmc == "std::swap" else pos.iterator(a)) for a in c["args"]}
+                        if kinds == {"found", "last"}:
+                            moved, how = True, "found and last element swapped"
+                    if c.get("op") == "=" and "obj" in c and c.get("args") and pos.element(c["obj"]) == "found" and pos.element(c["args"][0]) == "last":
+                        # found slot overwritten by the last element: on every path, or skipped exactly when found is the last slot
+                        cb = cfg.block_for(c)
+                        if before(c):
+                            moved, how = True, "last element moved into the found slot"
+                        else:
+                            fsx = MustFacts(f).at(c)
+                            skip_only_self = any(a[0] == "cmp" and a[2] == "!=" and {pos.index(a[4]), pos.index(a[5])} == {"found", "last"} for a in fsx)
+                            if skip_only_self and cfg.dominates(cfg.block_for(c), cfg.block_for(c)):
+                                moved, how = True, "last element moved into the found slot unless the found slot is the last"
+                if kind == "call:pop_back":
+                    res.check(g and f is rem and moved, "C16-R2", key, n.get("loc"), "pop_back only when found, after the %s" % (how or "swap"),
+                              "pop_back on %s without 'found' guard (%s) or without first bringing the last element into the found slot (%s)" %
+                              (vec.split("::")[-1], g, moved))
+                else:
+                    arg = n["args"][0] if n.get("args") else {}
+                    what = pos.iterator(arg)
+                    ok_e = len(n.get("args", [])) == 1 and (what == "found" or (what == "last" and moved))
+                    res.check(g and ok_e and f is rem, "C16-R2", key, n.get("loc"),
+                              "erase of the found element only when found" if what == "found" else "erase of the last slot after the %s" % how,
+                              "erase on %s is not the removal of the found element under a 'found' guard (guard %s, erased position %s)" % (vec.split("::")[-1], g, what))
             elif kind == "call:clear":
                 res.ok("C16-R2", key, n.get("loc"), "clear()")
             elif kind == "call:operator[]":
@@ -245,8 +379,9 @@ def run(ctx):
                 if (c.get("callee") or {}).get("nm") == "operator[]" and strip_all_casts(c.get("obj", {})).get("field") == vec and c.get("args"):
                     idx = c["args"][0]
                     d, calls = depends(f, idx)
-                    from_lookup = look.name in calls
-                    last = "size" in canon(idx) and vec.split("::")[-1] in canon(idx)
+                    pk = Positions(fb, f, vec, look, L).index(idx)
+                    from_lookup = look.name in calls or pk == "found"
+                    last = ("size" in canon(idx) and vec.split("::")[-1] in canon(idx)) or pk == "last"
                     is_param = any(strip_all_casts(idx).get("decl") == p["decl"] for p in f.params)
                     member_dep = sorted(x for x in d if x.startswith(L["cls"] + "::") and x != vec)
                     res.check((from_lookup or last or is_param) and not member_dep, "C16-R1", "%s:%s:index" % (short, f.name.split("::")[-1]), c.get("loc"),
@@ -257,13 +392,10 @@ def run(ctx):
         ups = [c for c in upd.calls() if (callee_name(c) or "") == L["elem"] + "::update" and "obj" in c]
         found_ok = False
         for c in ups:
-            o = strip_all_casts(c["obj"])
-            if o.get("k") == "call" and (o.get("callee") or {}).get("nm") == "operator[]" and strip_all_casts(o.get("obj", {})).get("field") == vec:
-                fs = MustFacts(upd).at(c)
-                g = any(a[0] == "cmp" and a[2] in ("<", "!=") and any(depends(upd, s)[1] & {look.name} for s in (a[4], a[5])) for a in fs)
-                same_idx = look.name in depends(upd, o["args"][0])[1]
+            if posu.element(c["obj"]) == "found":
+                g = posu.found_guard(MustFacts(upd).at(c), present=True)
                 same_pkt = strip_all_casts(c["args"][0]).get("decl") == upd.params[0]["decl"]
-                found_ok = g and same_idx and same_pkt
+                found_ok = found_ok or (g and same_pkt)
         res.check(found_ok, "C16-R4", "%s:found-updated" % short, upd.loc, "found: element [found index] receives update(packet)",
                   "on the found branch the element at the found index is not updated with the packet")
     # ---- DeviceStatus::update dispatch, InterfaceStatus::update
